@@ -33,7 +33,7 @@ def cases(tier, seed):
         cell_cls = planted.CELL_CLASSES[j % len(planted.CELL_CLASSES)]
         minimal = cell_cls.endswith("minimal")
         ncopies = 1 if minimal else int(rng.integers(1, 4))
-        out.append({"s": int(rng.integers(1 << 30)), "cell": cell_cls, "pattern": patterns.CLASSES[(j // 3) % len(patterns.CLASSES)],
+        out.append({"s": int(rng.integers(1 << 30)), "cell": cell_cls, "pattern": (patterns.CLASSES + ["close_pair"])[(j // 3) % (len(patterns.CLASSES) + 1)],
                     "atol": ATOLS[(j // 5) % 4], "crossings": [int(x) for x in rng.integers(0, 4, ncopies)],
                     "poses": [planted.POSES[int(x)] for x in rng.integers(0, len(planted.POSES), ncopies)],
                     "decoys": [] if minimal else ["mirror", "tangential", "tangential", "near_miss"][:int(rng.integers(1, 5))],
@@ -117,6 +117,6 @@ def requirements(stats, tier):
         need.append("hint classes observed: %s" % sorted(stats.sets.get("hint_class", [])))
     if stats.get("hints_with_index_0") < 20:
         need.append("index-0 hints observed %d times" % stats.get("hints_with_index_0"))
-    if stats.nseen("pattern_class") < len(patterns.CLASSES) or stats.nseen("cell_class") < len(planted.CELL_CLASSES):
+    if stats.nseen("pattern_class") < len(patterns.CLASSES) + 1 or stats.nseen("cell_class") < len(planted.CELL_CLASSES):
         need.append("not all pattern / cell classes observed")
     return need
